@@ -35,6 +35,7 @@ MANIFEST = {
         "observation and space share keys and sources; padding uses the declared "
         "fill values at the end. Not decided: membership of each observation "
         "array in its space (shapes and dtypes are runtime values)."
+        " Also decided: no function of these modules accumulates into a mutable default argument or a class-level mutable shared by all instances."
     ),
     "note": "Linear arithmetic over the AST of the space declarations; gymnasium's MultiDiscrete(nvec, start) semantics [start, start+nvec-1] is trusted.",
     "technique": "sibling call-site agreement + symbolic interval evaluation of space declarations + return-path constants",
@@ -849,6 +850,9 @@ def freshness(ctx):
 
 def run(ctx):
     chk = ctx.chk
+    from .common import check_mutable_defaults
+
+    check_mutable_defaults(ctx, "R18.g", ("job_shop_lib.reinforcement_learning",), "the environments")
     chk.rule("R18.f", "observations are rebuilt from the current graph and freshly padded on every call (no stored arrays)")
     chk.rule("R18.a", "MultiJobShopGraphEnv.reset forwards every configuration keyword the constructor forwards, from the attribute storing that argument")
     chk.rule("R18.b", "declared MultiDiscrete ranges contain every legal job id, machine id (and -1), node id (and -1)")
